@@ -291,7 +291,9 @@ def crash_exploration(runs, seed):
 # ------------------------------------------------------------------ C18: determinism across fresh processes
 
 def determinism_exploration(runs, seed):
-    """Same command, two fresh processes (different hash seeds): stdout and saved problems must be byte-identical."""
+    """Same command, several fresh processes (different hash seeds): stdout and saved problems must be byte-identical.
+    Inputs: seed texts, the repository's example tasks, and generated external tasks (harness dump_ext: several
+    placeholders, input/output/private predicates, proof outlines)."""
     rng = random.Random(seed)
     texts = seed_texts()
     ex = Path("/repo/res/examples")
@@ -299,9 +301,15 @@ def determinism_exploration(runs, seed):
     strong_dirs = sorted({f.parent for f in (ex / "strong_equivalence").rglob("*.lp")})
     work = Path(tempfile.mkdtemp(prefix="c18_", dir=str(VERIF / "work")))
     failures, samples, ok = [], [], 0
+    kinds = {}
     try:
+        gen_dirs = []
+        hb = VERIF / "harness" / "target" / "release" / "verif-harness"
+        if hb.exists():
+            subprocess.run([str(hb), "dump_ext", "--seed", str(seed), "--n", str(max(20, runs)), "--out", str(work / "gen")], check=False, timeout=120)
+            gen_dirs = sorted((work / "gen").glob("ext*"))
         for k in range(runs):
-            kind = rng.randrange(4)
+            kind = rng.randrange(6)
             outs = []
             if kind == 0:
                 f = work / "in.lp"; f.write_text(rng.choice(texts["lp"]))
@@ -310,21 +318,29 @@ def determinism_exploration(runs, seed):
                 f = work / "in.spec"; f.write_text(rng.choice(texts["spec"]))
                 cmd = rng.choice([["simplify", "--portfolio", rng.choice(["classic", "ht", "intuitionistic"]), "--strategy", rng.choice(["shallow", "recursive", "fixpoint"])],
                                   ["translate", "--with", "gamma"], ["parse", "--as", "theory", "--output", "default"]]) + [str(f)]
-            elif kind == 2 and ext_dirs:
-                cmd = ["verify", "--equivalence", "external", "--no-proof-search", "--no-timing", "--save-problems", "OUT", str(rng.choice(ext_dirs))]
-                if rng.random() < 0.5:
-                    cmd[1:1] = []
-                    cmd += []
+            elif kind in (2, 4) and (ext_dirs or gen_dirs):
+                pool = gen_dirs if (kind == 4 and gen_dirs) else ext_dirs
+                cmd = ["verify", "--equivalence", "external", "--no-proof-search", "--no-timing", "--save-problems", "OUT"]
+                if rng.random() < 0.3:
+                    cmd += ["--no-simplify"]
+                if rng.random() < 0.3:
+                    cmd += ["--decomposition", rng.choice(["independent", "sequential"])]
+                cmd += [str(rng.choice(pool))]
             else:
-                d = rng.choice(strong_dirs) if strong_dirs else None
-                if d is None:
-                    continue
-                lps = sorted(d.glob("*.lp"))[:2]
+                if kind == 5 and gen_dirs:
+                    d = rng.choice(gen_dirs)
+                    lps = sorted(d.glob("*.lp"))[:2]
+                else:
+                    d = rng.choice(strong_dirs) if strong_dirs else None
+                    if d is None:
+                        continue
+                    lps = sorted(d.glob("*.lp"))[:2]
                 if len(lps) < 2:
                     continue
                 cmd = ["verify", "--equivalence", "strong", "--no-proof-search", "--no-timing", "--save-problems", "OUT",
                        "--decomposition", rng.choice(["independent", "sequential"])] + [str(x) for x in lps]
-            for rep in range(2):
+            kinds[kind] = kinds.get(kind, 0) + 1
+            for rep in range(3):
                 out = work / f"out{rep}"
                 shutil.rmtree(out, ignore_errors=True)
                 out.mkdir()
@@ -332,12 +348,23 @@ def determinism_exploration(runs, seed):
                 p = subprocess.run([str(ANTHEM)] + c, stdout=subprocess.PIPE, stderr=subprocess.PIPE, timeout=120, env=dict(os.environ, RUST_BACKTRACE="0"))
                 files = {f.name: f.read_bytes() for f in sorted(out.glob("*"))}
                 outs.append((p.returncode, p.stdout, files))
-            if outs[0] != outs[1]:
-                failures.append({"command": cmd, "what": "two fresh processes produced different output / problem files"})
+            if any(o != outs[0] for o in outs[1:]):
+                inputs = {}
+                for a in cmd:
+                    pa = Path(a)
+                    if pa.is_dir() and str(pa).startswith(str(work)):
+                        inputs.update({f.name: f.read_text() for f in sorted(pa.glob("*"))})
+                    elif pa.is_file() and str(pa).startswith(str(work)):
+                        inputs[pa.name] = pa.read_text()
+                diff = sorted(n for n in set(outs[0][2]) | set(outs[1][2]) | set(outs[2][2]) if len({o[2].get(n) for o in outs}) > 1)
+                failures.append({"command": [x.replace(str(work), "<work>") for x in cmd], "inputs": inputs, "differing_files": diff,
+                                 "stdout_differs": len({o[1] for o in outs}) > 1,
+                                 "what": "three fresh processes produced different output / problem files"})
             else:
                 ok += 1
                 if len(samples) < 2:
-                    samples.append(f"{' '.join(cmd[:5])}: two fresh processes byte-identical ({len(outs[0][2])} files, {len(outs[0][1])} bytes stdout)")
+                    samples.append(f"{' '.join(cmd[:5])}: three fresh processes byte-identical ({len(outs[0][2])} files, {len(outs[0][1])} bytes stdout)")
     finally:
         shutil.rmtree(work, ignore_errors=True)
-    return {"evaluations": runs, "distinct_nontrivial": ok, "samples": samples, "process_pairs_identical": ok}, failures
+    return {"evaluations": runs, "distinct_nontrivial": ok, "samples": samples, "process_triples_identical": ok,
+            "command_kinds": {str(k): v for k, v in sorted(kinds.items())}}, failures
